@@ -549,6 +549,18 @@ def check(prog, run):
     finally:
         CTX.overrides = {}
     run.trusted |= set(CTX.used)
+    run.rule("R-stateless", "the preprocessing methods of both setup classes change no module-level or class-level table in place (option defaults shared by all "
+             "instances): what one call is asked to do does not leak into the next call or into another setup", 10)
+    from ..effects import shared_state_rule
+    roots_ = []
+    for cq in MUTATOR_CLASSES:
+        ci = prog.cls(cq)
+        for name in ("__init__", "_initialize_data", "rollback", "decimate_data", "detrend_data", "filter_data", "_decimate_data", "_detrend_data", "_filter_data", "add_algorithms"):
+            m = prog.find_method(ci, name)
+            if m is not None:
+                roots_.append(m.qual)
+    reach_ = sorted(q for q in prog.reachable(roots_) if q in prog.functions and not q.startswith("pyoma2.functions.plot") and ".setter" not in q)
+    shared_state_rule(prog, run, "R-stateless", reach_, "a later call (on this or on another setup) is carried out with the options of an earlier one")
     frame_rule(prog, run)
     kwargs_rule(prog, run)
     axis_rule(prog, run)
